@@ -64,6 +64,9 @@ func expandC03(_ *testing.T, seed uint64, tier string) []*core.Plan {
 	p.SetKnob("split1", -1)
 	p.SetKnob("split2", -1)
 	class := seed % 8
+	if class == 7 {
+		return expandC03WS(seed, tier)
+	}
 	switch {
 	case class == 0:
 		// short stream: every split point (and, thorough, every pair) and every
@@ -147,6 +150,9 @@ type recvRec struct {
 }
 
 func runC03(t *testing.T, p *core.Plan) *core.Result {
+	if p.Knob("ws", 0) != 0 {
+		return runC03WS(t, p)
+	}
 	res := &core.Result{Check: "C03", Seed: p.Seed}
 	log := core.NewLog(false)
 	sched := core.NewRand(core.Derive(p.Seed, "sched"))
